@@ -372,7 +372,67 @@ def gen_cases(seed, tier, unsafe_share=True):
         cases.append(spec('m%d' % k, v, 2500, 2501, RATES['1'], 0, 0, 0, ['offbyone', 'memoindex:0'],
                           'seed:%d' % rng.below(1 << 32)))
         k += 1
+    # rates just inside the ends of [0, 1] (C09 / C15 speak of every rate): a percentage, a byte or a ratio computed from the
+    # rate truncates to 0 or to the whole range only here; both entropy modes, every protocol
+    edge_rates = [0.001, 1 / 255, 2 / 255, 0.0099999, 0.01, 5e-324, 1e-300, 0.99, 0.999999999, 1 - 2 ** -53]
+    for i, r in enumerate(edge_rates if tier == 'quick' else edge_rates + [1e-9, 0.005, 0.0039, 0.996, 1e-17, 2 ** -53]):
+        for v in range(6):
+            for mode in (0, 1):
+                src = 'seed:%d' % rng.below(1 << 32) if mode else 'bytes:' + (rand_bytes(rng, 200).hex() or '-')
+                muts = SAFE_MUTS if (i + v) % 3 else SAFE_MUTS[:5] + UNSAFE_MUTS
+                cases.append(spec('t%d' % k, v, 20, 40, f64bits(r), int((i + v) % 3 == 0), 0, 0, list(muts), src))
+                k += 1
     return cases
+
+
+def run_big(seed, tier, log):
+    """LARGE outputs (protocols 2 .. 5, with and without FRAME): beyond 64 KiB - where CPython's own pickler starts a new frame
+    and lengths stop fitting two bytes - the one FRAME must still cover everything up to STOP and the opcode count must stay
+    within the knobs.  Run without tracing (a trace of 9 000 steps is quadratic in the stack depth) and judged by all
+    single-output oracles of the extracted model, one driver process per case."""
+    key = hashlib.sha256(('%s|%s|%d|%s|big' % (repo_hash(), model_hash(), seed, tier)).encode()).hexdigest()[:24]
+    d = os.path.join(CACHE, key)
+    res_path = os.path.join(d, 'big.json')
+    if os.path.exists(res_path):
+        log('big: cached result %s' % key)
+        return json.load(open(res_path))
+    t0 = time.time()
+    os.makedirs(d, exist_ok=True)
+    cases = []
+    for i in range(6 if tier == 'quick' else 24):
+        v = (4, 5, 4, 5, 2, 3)[i % 6]
+        n_ = 9000 if i % 6 < 4 else 8000
+        muts = [] if i % 3 else list(SAFE_MUTS[:5])
+        cases.append(spec('w.big%d' % i, v, n_, n_, RATES['0.1'], 0, 0, 0, muts, 'seed:%d' % (seed - 1 + i // 2)))
+    out = library_bytes(cases)
+    props, framed, sizes = [], 0, []
+    blocks = out.split('CASE ')[1:]
+    procs = []
+    tmp = os.path.join(BUILD, 'bigtmp')
+    shutil.rmtree(tmp, ignore_errors=True)
+    os.makedirs(tmp)
+    for bi, b in enumerate(blocks):
+        tp = os.path.join(tmp, 'b%d.txt' % bi)
+        open(tp, 'w').write('CASE ' + b)
+        m = re.search(r'RESULT ok (\S+)', b)
+        if m and m.group(1) != '-':
+            raw = bytes.fromhex(m.group(1))
+            sizes.append(len(raw))
+            framed += int(len(raw) > 2 and raw[2] == 0x95)
+        procs.append(subprocess.Popen([DRIVER, 'oracles', tp], stdout=subprocess.PIPE, stderr=subprocess.STDOUT, text=True, env=ENV))
+    for p in procs:
+        o, _ = p.communicate(timeout=3000)
+        props += parse_verdicts(o)['props']
+        if p.returncode != 0:
+            raise Infra('driver oracles failed on a large output: ' + o[-500:])
+    for l in [l for l in out.splitlines() if l.startswith('RESULT hang') or l.startswith('RESULT panic')]:
+        props.append({'id': 'w.big', 'prop': 'C09', 'detail': 'large output: ' + l[:200]})
+    shutil.rmtree(tmp, ignore_errors=True)
+    res = dict(ok=[], diffs=[], props=props, stats={}, ncases=len(cases), okn=len(cases) - len(set(p['id'] for p in props)), nops=len(cases),
+               specs={re.search(r'\bid=(\S+)', c).group(1): c for c in cases}, samples=[cases[0]], sizes=sizes, framed=framed)
+    json.dump(res, open(res_path, 'w'))
+    log('big: %d large outputs (%d .. %d bytes, %d framed), %d oracle failures, %.1fs' % (len(cases), min(sizes or [0]), max(sizes or [0]), framed, len(props), time.time() - t0))
+    return res
 
 
 # ----------------------------------------------------------------------------- suites S1 + S2
@@ -434,6 +494,15 @@ def generated_paths():
         if v >= 2:
             al += ['EMPTY_LIST;NONE;APPEND;DUP;TUPLE1;APPEND', 'MARK;NONE;LIST;DUP;TUPLE1;TUPLE1;APPEND', 'EMPTY_DICT;NONE;NONE;SETITEM;DUP;TUPLE1;NONE;SETITEM',
                    'GLOBAL;EMPTY_TUPLE;REDUCE;NONE;TUPLE1;BUILD;DUP;TUPLE1;BUILD']
+        # BUILD with a state that holds a COPY of the instance (a memo copy shares the instance's state cell): whatever BUILD does
+        # to the old state - replace it, merge into it, keep it - a cycle through the shared cell must still be released
+        for (pu, ge) in pairs[v]:
+            al += ['GLOBAL;EMPTY_TUPLE;REDUCE;EMPTY_DICT;BUILD;%s;EMPTY_DICT;NONE;%s;SETITEM;BUILD' % (pu, ge),
+                   'GLOBAL;EMPTY_TUPLE;REDUCE;EMPTY_DICT;NONE;NONE;SETITEM;BUILD;%s;EMPTY_DICT;NONE;%s;SETITEM;BUILD;EMPTY_DICT;BUILD;NONE' % (pu, ge),
+                   'GLOBAL;EMPTY_TUPLE;REDUCE;EMPTY_DICT;BUILD;%s;POP;EMPTY_DICT;NONE;%s;SETITEM;%s;POP;NONE' % (pu, ge, ge)]
+            if v >= 2:
+                al += ['GLOBAL;EMPTY_TUPLE;REDUCE;EMPTY_DICT;BUILD;%s;%s;TUPLE1;BUILD' % (pu, ge),
+                       'GLOBAL;EMPTY_TUPLE;REDUCE;EMPTY_DICT;BUILD;%s;EMPTY_DICT;%s;TUPLE1;NONE;SETITEM;BUILD' % (pu, ge)]
         # GARBAGE cycles amid volume: a cycle whose only owners are its own cells (popped off the stack at once), before, between
         # and after many more in-place modifications of other containers - whatever book-keeping the release of cycles rests on
         # (a registry that is pruned, compacted, capped or re-hashed as it grows) meets it here; S7 requires 0 bytes live after drop
@@ -1109,8 +1178,11 @@ def run_s6(seed, tier, log):
             expect[cur] = bytes.fromhex(l.split()[2]) if l.startswith('RESULT ok') and l.split()[2] != '-' else None
     envb = dict(os.environ, PATH=os.path.dirname(PFBIN) + ':' + os.environ.get('PATH', ''))
     # 1. single-file mode
-    for v in vecs:
+    for vi, v in enumerate(vecs):
         out = os.path.join(tmp, v['id'] + '.pkl')
+        if vi % 4 == 1:
+            # the output path already holds a (longer) file from an earlier run: it must be REPLACED, not written into
+            open(out, 'wb').write(b'\x80\x04' + b'stale' * 40000 + b'.')
         argv = [PFBIN, out] + vec_argv(v)          # FILE first: --mutators takes any number of values
         q = subprocess.run(argv, stdout=subprocess.PIPE, stderr=subprocess.PIPE, timeout=300)
         nrun += 1
@@ -1141,6 +1213,11 @@ def run_s6(seed, tier, log):
     for j, v in enumerate(vecs[:: max(1, len(vecs) // (12 if tier == 'quick' else 60))]):
         for threads, samples in ((1, 3), (3, 7), (16, 5)):
             dd = os.path.join(tmp, 'batch_%s_%d' % (v['id'], threads))
+            if threads == 3:
+                # a directory that already holds the files of an earlier, larger run
+                os.makedirs(dd)
+                for i_ in range(samples):
+                    open(os.path.join(dd, '%d.pkl' % i_), 'wb').write(b'\x80\x04' + b'stale' * 40000 + b'.')
             argv = [PFBIN, '--dir', dd, '--samples', str(samples)] + vec_argv(v)
             q = subprocess.run(argv, stdout=subprocess.PIPE, stderr=subprocess.PIPE, timeout=300, env=dict(envb, RAYON_NUM_THREADS=str(threads)))
             nrun += 1
@@ -1596,6 +1673,17 @@ def gen_s3_cases(seed, tier):
                     rate = rates[2] if si % 5 else rates[si % 3 if si % 3 != 2 else 0]
                     cases.append('id=a%d rate=%s src=%s ops=%s:%s:%s;%s:%s:%s' % (k, rate, src, kind, ml, val, kind, ml, val))
                     k += 1
+    # the type-confusion mutator over EVERY opcode byte as the first byte of the emission (its classification table has 256
+    # entries), every value of the kind draw (one fuzzer byte, 9 kinds), unsafe mode and - gate opened by eight zero bytes -
+    # safe mode: the replacement must push a value of another kind, or leave the emission alone
+    for b in range(256):
+        delta = '%02x' % b + '00' * 12
+        for c in range(9 if tier == 'quick' else 18):
+            cases.append('id=a%d rate=%s src=bytes:%s ops=pp:typeconf.1:%s:-' % (k, rates[2], '00' * 8 + '%02x' % c + '00' * 4, delta))
+            k += 1
+            if c % 3 == 0 or tier != 'quick':
+                cases.append('id=a%d rate=%s src=bytes:%s ops=pp:typeconf.0:%s:8002' % (k, rates[2], '00' * 8 + '%02x' % c + '00' * 4, delta))
+                k += 1
     for sidx, src in enumerate(srcs):
         ops = [pool[rng.below(len(pool))] for _ in range(nops)]
         cases.append('id=a%d rate=%s src=%s ops=%s' % (k, rates[rng.below(len(rates))], src, ';'.join(ops)))
@@ -2045,7 +2133,40 @@ def run_s3(seed, tier, log):
 
 def run_s5(seed, tier, log):
     cases = [l for l in corpus_lines('hist')] + gen_s5_cases(seed, tier)
-    return run_lines_suite('s5', 'hist', 's5', cases, seed, tier, log)
+    res = run_lines_suite('s5', 'hist', 's5', cases, seed, tier, log)
+    if res.get('searched') or not res['diffs'] or any(p['prop'] == 'C08' for p in res['props']):
+        return res
+    # search for a failing input of C08: a call in the MIDDLE of a history differs from the model's (fresh-state) answer, but
+    # the property's own comparison - the implementation against a fresh generator of its own - is made for the LAST call of a
+    # history only.  Cut each such history right after the disagreeing call and run it again: that call is now the last one.
+    cut = []
+    for d in res['diffs'][:40]:
+        m = re.match(r's5-result call=', d['what'])
+        line = res['specs'].get(d['id'])
+        if not m or not line or ' hist=' not in line:
+            continue
+        i = int(d['step'].split('=')[1])
+        head, hist = line.split(' hist=', 1)
+        calls = hist.split(';')
+        if i + 1 < len(calls):
+            cut.append(re.sub(r'\bid=(\S+)', r'id=\1.cut%d' % i, head, 1) + ' hist=' + ';'.join(calls[:i + 1]))
+    if cut:
+        tmp = os.path.join(BUILD, 's5cut')
+        shutil.rmtree(tmp, ignore_errors=True)
+        os.makedirs(tmp)
+        cp, tp = os.path.join(tmp, 'cases.txt'), os.path.join(tmp, 'trace.txt')
+        open(cp, 'w').write('\n'.join(cut) + '\n')
+        run_harness('hist', cp, tp, [], log)
+        out = subprocess.run([DRIVER, 's5', tp], stdout=subprocess.PIPE, stderr=subprocess.STDOUT, text=True, env=ENV, timeout=3000).stdout
+        found = [p for p in parse_verdicts(out)['props'] if p['prop'] == 'C08']
+        for p in found:
+            p['detail'] += ' (found by cutting the history right after the call that disagrees with the model)'
+            res['specs'][p['id']] = [c for c in cut if c.split()[0][3:] == p['id']][0]
+        res['props'] += found
+        log('s5: %d histories cut after the disagreeing call: %d show the call differing from a fresh generator of the implementation' % (len(cut), len(found)))
+        shutil.rmtree(tmp, ignore_errors=True)
+    res['searched'] = True
+    return res
 
 
 def corpus_lines(ext):
@@ -2128,6 +2249,66 @@ def fuzz_search(prop, broken, seed, tier, log, n=None):
     shutil.rmtree(tmp, ignore_errors=True)
     log('search: %d further implementation runs around %d configuration(s) of the broken obligations, judged by the oracles alone: %d show %s failing, %.1fs' % (
         n, len(bases), len(props), prop, time.time() - t0))
+    return props, specs
+
+
+def hist_fuzz_search(broken, seed, tier, log, n=None):
+    """C08's analogue of fuzz_search: a correspondence broke, but no history of the suites shows a call on a used generator
+    differing from the same call on a FRESH generator of the implementation itself.  Run many more short histories around the
+    configurations named by the broken correspondences (two to four calls, seeds and fuzzer bytes, resets in between, big
+    pickles first) and compare, in the implementation alone, the last call with a fresh generator's answer."""
+    n = n or (6000 if tier == 'quick' else 60000)
+    bases, seen = [], set()
+    for what, detail in broken:
+        for m in re.finditer(r'id=\S+ (v=\d[^|\]]*)', detail):
+            kvs = dict(w.split('=', 1) for w in m.group(1).split() if '=' in w)
+            if not all(k in kvs for k in ('v', 'unsafe', 'ext', 'buf', 'muts', 'rate')):
+                continue
+            sig = tuple(kvs[k] for k in ('v', 'unsafe', 'ext', 'buf', 'muts'))
+            if sig not in seen and len(bases) < 6:
+                seen.add(sig)
+                bases.append(kvs)
+    if not bases:
+        return [], {}
+    rng = SplitMix64(seed ^ 0xC08F)
+    cases = []
+    for i in range(n):
+        b = bases[i % len(bases)]
+        def call():
+            r = rng.below(6)
+            return 'r' if r == 0 else 'b:' + rand_bytes(rng, 40 if r < 3 else 300).hex() if r < 4 else 's:%d' % rng.below(1 << 32)
+        hist = ['s:%d' % rng.below(1 << 32)] + [call() for _ in range(rng.below(3))] + [rng.choice(['s:%d' % rng.below(1 << 32), 'b:' + rand_bytes(rng, 60).hex()])]
+        rate = rng.choice([b['rate'], RATES['1'], RATES['0.5']])
+        mn, mx = rng.choice([(60, 300), (20, 40), (100, 101), (5, 9)])
+        vs = [int(b['v'])] + ([rng.below(6)] if i % 4 == 3 else [])
+        cases.append('id=hz%d v=%d min=%d max=%d rate=%s unsafe=%s ext=%s buf=%s muts=%s src=none hist=%s' % (
+            i, vs[-1], mn, mx, rate, b['unsafe'], b['ext'], b['buf'], b['muts'], ';'.join(hist)))
+    t0 = time.time()
+    tmp = os.path.join(BUILD, 'histfuzz')
+    shutil.rmtree(tmp, ignore_errors=True)
+    os.makedirs(tmp)
+    cp, tp = os.path.join(tmp, 'cases.txt'), os.path.join(tmp, 'trace.txt')
+    open(cp, 'w').write('\n'.join(cases) + '\n')
+    run_harness('hist', cp, tp, [], log)
+    props, specs, cur, last = [], {}, None, None
+    for l in open(tp):
+        if l.startswith('CASE '):
+            cur, last = l[5:].strip(), None
+        elif l.startswith('H '):
+            w = l.split(' ', 2)
+            if len(w) > 2 and w[2].startswith('RESULT'):
+                last = w[2].strip()
+        elif l.startswith('FRESH ') and cur and last is not None:
+            fr = l[6:].strip()
+            if fr != last:
+                cid = re.search(r'\bid=(\S+)', cur).group(1)
+                nh = len(cur.split(' hist=')[1].split(';'))
+                props.append({'id': cid, 'prop': 'C08', 'detail': 'the last call of a history of %d calls returns %s... but a fresh generator with the same settings returns %s... '
+                              '(found by the implementation-only search over short histories around the configurations of the broken correspondence)' % (nh, last[:60], fr[:60])})
+                specs[cid] = cur
+    shutil.rmtree(tmp, ignore_errors=True)
+    log('search: %d further short histories around %d configuration(s) of the broken obligations, last call against a fresh generator of the implementation: %d differ, %.1fs' % (
+        n, len(bases), len(props), time.time() - t0))
     return props, specs
 
 
